@@ -58,7 +58,7 @@ CLAIMED = {
          'Every keyed primitive driven over public-shape grids with keys, plaintext, passwords, fed entropy and all getrandom bytes tainted; any secret-dependent branch or address is a memcheck report, attributed to the operation in progress; a report inside a decrypt/verify (public outcome) is confirmed or cleared by comparing the instruction+data traces of 57 executions per shape (3 secret sets x 19 tag variants) within each outcome class; a planted branch proves the monitor is live in every build.',
          'Executed paths only; not micro-architectural; C++ wrapper branches on the public result excluded.', '4 C11'),
  'C16': ('exploration', 'ThreadSanitizer build + helgrind + DRD on the -O3 build over a multi-threaded workload with shared const objects; per-thread results vs sequential',
-         '2..16 threads, thousands of thread-operations per run on own objects and shared pre-computed ISAP / masked keys (24 operation kinds incl. HMAC keys longer than the block); 24 cold-start processes per TSan build whose 8 threads all begin with the same operation kind (no sequential warm-up: lazily initialised state is first touched concurrently); three race detectors each proven live by a planted race; results compared with sequential execution after the join.',
+         '2..16 threads (plus a run with the system random source dead, PRNG compared), thousands of thread-operations per run on own objects and shared pre-computed ISAP / masked keys (24 operation kinds incl. HMAC keys longer than the block); 24 cold-start processes per TSan build whose 8 threads all begin with the same operation kind (no sequential warm-up: lazily initialised state is first touched concurrently); three race detectors each proven live by a planted race; results compared with sequential execution after the join.',
          'Schedules sampled; happens-before detectors.', '4 C16'),
  'C18': ('exploration', 'generator re-execution + register/stack sentinel trampolines on native x86-64 and i386 code + instrumented text interpreters for 12 non-host assembly files + ELF/process stack-permission observer',
          'All 18 generator outputs byte-compared (exhaustive over files); native x86-64 entry points (permutations, masked permutations, 35 masked-word functions) and the i386 permutation (32-bit static build) called through trampolines that check callee-saved registers, stack pointer, direction flag and caller-frame canaries; ARMv6, ARMv6-M, ARMv7-M, AArch64, AVR5 (+x2, x3, both strides), m68k (+ColdFire), RV32E/RV32I/RV64I and Xtensa (call0 + windowed) files executed by interpreters for all 12 starting rounds with result, ABI and memory-bounds assertions; GNU_STACK / .note.GNU-stack / live [stack] mapping.',
